@@ -488,7 +488,7 @@ def summarize(results):
     return tot
 
 
-def explore_ob(harness, max_paths=4000, max_seconds=900, models=None):
+def explore_ob(harness, max_paths=4000, max_seconds=900, models=None, **mkw):
     """explore all paths of `harness(m) -> Check | None`; returns a worker result dict"""
     P, S = get_world()
     acc = {"checks": 0, "holds": 0, "solver_s": 0.0, "fails": [], "unknown": []}
@@ -498,7 +498,7 @@ def explore_ob(harness, max_paths=4000, max_seconds=900, models=None):
         if chk is not None:
             merge(acc, chk.discharge())
         return None
-    res = explore(P, S, h, models=models, max_paths=max_paths, max_seconds=max_seconds)
+    res = explore(P, S, h, models=models, max_paths=max_paths, max_seconds=max_seconds, **mkw)
     st = res["stats"]
     acc.update(paths=st["paths"], feas_checks=st["feas_checks"], undecided=list(res["undecided"]),
                panics=[l.detail for l in res["leaves"] if l.kind == "panic"],
